@@ -202,8 +202,6 @@ Definition sqconn (c : conn) (pre : heap) (l : list node) (ql qu : Z) : conn :=
   mkConn (pre ++ chain (length pre) None l None) (c_state c) (c_neg c) (c_cb c) (c_sm c)
          (firstp (length pre) l) (lastp (length pre) None l) ql qu.
 
-Lemma firstp_snoc b l p : firstp b (l ++ [p]) = Some (match l with [] => b | _ => b end).
-Proof. destruct l; reflexivity. Qed.
 Lemma firstp_snoc' b l p : firstp b (l ++ [p]) = match firstp b l with None => Some b | x => x end.
 Proof. destruct l; reflexivity. Qed.
 Lemma lastp_snoc b pv l p : lastp b pv (l ++ [p]) = Some (b + length l)%nat.
@@ -1164,8 +1162,6 @@ Proof.
   now rewrite app_nil_r, Hq.
 Qed.
 
-Lemma clean_after_mid k : exists k', clean_conn k = clean_conn k'.
-Proof. now exists k. Qed.
 
 Lemma enc_string_len t : zlen (enc_string t) = 5 + zlen t.
 Proof. unfold enc_string. rewrite zlen_cons, zlen_app, word_length. lia. Qed.
